@@ -96,7 +96,9 @@ def _std(ctx, shape, pick):
     fail = None
     if shape.get('fail'):
         fail = {'at': tuple(shape['fail']), 'reason': ctx.bytes('reason', 2)}
-    return Std(ctx, maxdata=4096, pick=pick, sym_rid=shape.get('sym_rid', False), packetize=packetize, fail=fail)
+    st = Std(ctx, maxdata=4096, pick=pick, sym_rid=shape.get('sym_rid', False), packetize=packetize, fail=fail)
+    st.dup_clse = bool(shape.get('dup_clse'))
+    return st
 
 
 def _short_policy(ctx, shape):
@@ -160,6 +162,7 @@ def h_threads(ctx, mods, shape):
     items = _mk_ops(ctx, st, w, shape['ops'])
     s = sched.Scheduler(ctx, max_preempt=shape.get('preempt', 2))
     sched.SchedLock.sched = s
+    sched.SchedLock.clock = w.clock
     if shape.get('transport_yields', True):
         w.wire.yield_hook = s.yield_point
     recs = []
@@ -177,6 +180,7 @@ def h_threads(ctx, mods, shape):
             from .common import Outcome
             o = Outcome(exc=r.exc)
         results.append((op, exp, o))
+    ctx.check(not s.foreign_releases, 'a lock is only released by the thread that holds it', detail=str(s.foreign_releases[:2]))
     ctx.check(not s.inversions, 'lock order: the transport lock is never acquired while the store lock is held', detail=str(s.inversions[:2]))
     _judge(ctx, mods, w, st, results, dl, judge=shape.get('judge_results', True), ignore_k1=shape.get('ignore_k1', False))
     for l in (io._store_lock, io._transport_lock, w.dev._local_id_lock):
@@ -280,6 +284,10 @@ def shapes(tier, seed):
             out.append({'h': 'threads', 'ops': [small[a], small[b]], 'preempt': 1, 'yields': True, 'max_paths': 60000, 'xpart': [i, 2, 8]})
         out.append({'h': 'async', 'ops': [small[a], small[b]], 'max_paths': 60000})
     out.append({'h': 'threads', 'ops': [small['shell'], small['shell']], 'preempt': 1, 'yields': True, 'sym_rid': True, 'max_paths': 60000})
+    # a device that repeats every CLSE (seen in the wild): statement-level preemption
+    out.append({'h': 'threads', 'ops': [small['shell'], small['shell']], 'preempt': 1, 'yields': True, 'dup_clse': True, 'max_paths': 100000, 'xpart': [0, 2, 8]})
+    out.append({'h': 'threads', 'ops': [small['shell'], small['shell']], 'preempt': 1, 'yields': True, 'dup_clse': True, 'max_paths': 100000, 'xpart': [1, 2, 8]})
+    out.append({'h': 'async', 'ops': [small['shell'], small['shell']], 'dup_clse': True, 'max_paths': 100000})
     # a multi-packet listing / a rejected push next to a streaming_shell
     out.append({'h': 'async', 'ops': [['list', {'names': [1, 1, 1]}], small['sshell']], 'wrte_size': 24, 'max_paths': 200000})
     out.append({'h': 'async', 'ops': [['push', {'size': 5000, 'expect_exc': 'PushFailedError'}], small['sshell']], 'fail': ['done'], 'max_paths': 200000})
